@@ -39,6 +39,10 @@ def matrix():
         files = sorted(set(re.findall(r"^\+\+\+ b/src/krrood/(\S+)", diff, flags=re.M)))
         caught = [c for c in sorted(r) if c.startswith("C") and r[c].get("caught")]
         broken = [c for c in sorted(r) if c.startswith("C") and r[c].get("exit") == 2]
+        meta = json.loads((V / "seeded" / sid / "meta.json").read_text())
+        if meta.get("neutralised"):
+            rows.append(f"| {sid} | {', '.join(files)} | {', '.join(caught) or '–'} | neutralised by a later repair (its own demonstration passes with the patch): not a property-breaking change any more |")
+            continue
         if not caught:
             missed.append(sid)
         rows.append(f"| {sid} | {', '.join(files)} | {', '.join(caught) or '**none**'} | {('check broken (exit 2): ' + ', '.join(broken)) if broken else ''} |")
